@@ -506,6 +506,10 @@ pub fn ret_err_reached(p: &Program) -> Option<u32> {
     }
 }
 
+/// `RowsUnit.recover` with this error kind means: do not report anything, ignore the refused
+/// row (write_row mode) and carry on with the following rows
+pub const CARRY_ON: u16 = 0xFFFF;
+
 /// expected reply of a contradiction program that recovers with finish_error: everything before
 /// the contradicting unit, the rows before the contradicting row, then the error
 pub fn recover_units(p: &Program) -> Option<Vec<ExpUnit>> {
@@ -523,6 +527,30 @@ pub fn recover_units(p: &Program) -> Option<Vec<ExpUnit>> {
                 more: true,
             }),
             Unit::Rows(r) => {
+                if let (Some(c), Some((CARRY_ON, _))) = (&r.contra, &r.recover) {
+                    // the shim ignores the refused row and carries on with the rest: if the
+                    // tree lets it (every later call reports success), the client is owed
+                    // exactly the program without that row
+                    let row = match c {
+                        Contra::TooFewCols { row } => *row as usize,
+                        _ => return None,
+                    };
+                    if !r.write_row || row >= r.rows.len() {
+                        return None;
+                    }
+                    let mut p2 = p.clone();
+                    for u2 in p2.units.iter_mut() {
+                        if let Unit::Rows(r2) = u2 {
+                            if r2.contra.as_ref() == Some(c) && r2.recover == r.recover {
+                                r2.rows.remove(row);
+                                r2.contra = None;
+                                r2.recover = None;
+                                break;
+                            }
+                        }
+                    }
+                    return Some(program_units(&p2));
+                }
                 if let (Some(c), Some((kind, msg))) = (&r.contra, &r.recover) {
                     let row = match c {
                         Contra::TooFewCols { row }
